@@ -207,3 +207,159 @@ std_stubs! { #[kani::unwind(6)] pub(crate) fn c_backref_i_n3() { c_backref::<3>(
 //@ bound: BackReference(1).matches_iter; any recorded span or unset; input <= 4 chars over all scalar values; every position; no flag i
 //@ encodes: BackReference::matches_iter
 std_stubs! { #[kani::unwind(7)] pub(crate) fn c_backref_n4() { c_backref::<4>(false) } }
+
+// ---- capture-state primitives (C03, C19) -----------------------------------
+fn opt_in(len: usize) -> Option<usize> {
+    let o: Option<usize> = kani::any();
+    if let Some(x) = o {
+        kani::assume(x <= len);
+    }
+    o
+}
+
+//@ harness: c_clear_beyond
+//@ props: C03 C19
+//@ tier: quick
+//@ cost: 60
+//@ bound: ReMatcher::clear_captured_groups_beyond(pos) from ARBITRARY capture arrays (3 groups) and back-reference arrays (4 entries - longer than the capture arrays, as for a program with more than 2 groups), every pos: a group / back-reference whose start is at or after pos is emptied (end := start), every other entry is left untouched
+//@ encodes: ReMatcher::clear_captured_groups_beyond
+std_stubs! {
+    #[kani::unwind(6)]
+    pub(crate) fn c_clear_beyond() {
+        let mut p = bare(Operation::from(Nothing), flags(""));
+        p.max_parens = Some(4);
+        let m = ReMatcher::new(&p, "");
+        let s = [opt_in(8), opt_in(8), opt_in(8)];
+        let e = [opt_in(8), opt_in(8), opt_in(8)];
+        // one back-reference slot per group of the program (4 here), whereas the
+        // capture arrays have only the 3 slots of a fresh matcher
+        let bs = [opt_in(8), opt_in(8), opt_in(8), opt_in(8)];
+        let be = [opt_in(8), opt_in(8), opt_in(8), opt_in(8)];
+        {
+            let st = m.verif_state();
+            let mut st = st.borrow_mut();
+            st.capture_state.startn = vec![s[0], s[1], s[2]];
+            st.capture_state.endn = vec![e[0], e[1], e[2]];
+            st.capture_state.paren_count = 3;
+            st.start_backref = vec![bs[0], bs[1], bs[2], bs[3]];
+            st.end_backref = vec![be[0], be[1], be[2], be[3]];
+        }
+        let pos: usize = kani::any();
+        kani::assume(pos <= 8);
+        kani::cover!(matches!(s[1], Some(x) if x == pos), "a group starting exactly at the backtracked position");
+        kani::cover!(matches!(s[2], Some(x) if x < pos) && e[2].is_some(), "a group starting before it");
+        kani::cover!(s[1].is_none(), "an unset group");
+        kani::cover!(matches!(bs[3], Some(x) if x >= pos) && be[3].is_some(), "a back-reference slot beyond the capture arrays is emptied");
+        m.clear_captured_groups_beyond(pos);
+        let mut ok = true;
+        let mut i = 0;
+        while i < 3 {
+            let cleared = matches!(s[i], Some(x) if x >= pos);
+            let want_e = if cleared { s[i] } else { e[i] };
+            if !opt_eq(m.get_paren_start(i), s[i]) || !opt_eq(m.get_paren_end(i), want_e) {
+                ok = false;
+            }
+            i += 1;
+        }
+        let mut i = 0;
+        while i < 4 {
+            let bcleared = matches!(bs[i], Some(x) if x >= pos);
+            let want_be = if bcleared { bs[i] } else { be[i] };
+            if !opt_eq(m.start_backref(i), bs[i]) || !opt_eq(m.end_backref(i), want_be) {
+                ok = false;
+            }
+            i += 1;
+        }
+        kani::assert(ok, "C03.clear-beyond.empties-exactly-groups-starting-at-or-after-pos");
+        std::mem::forget(m);
+        std::mem::forget(p);
+    }
+}
+
+fn c_set_paren(g: usize) {
+    let p = bare(Operation::from(Nothing), flags(""));
+    let mut m = ReMatcher::new(&p, "");
+    let (v, len) = sym_input::<2>();
+    m.search = v;
+    let a: usize = kani::any();
+    let b: usize = kani::any();
+    kani::assume(a <= b && b <= len);
+    kani::cover!(a < b, "non-empty span");
+    kani::cover!(a == b, "empty span");
+    m.set_paren_count(g + 1);
+    m.set_paren_start(0, 0);
+    m.set_paren_end(0, len);
+    m.set_paren_start(g, a);
+    m.set_paren_end(g, b);
+    kani::assert(opt_eq(m.get_paren_start(g), Some(a)) && opt_eq(m.get_paren_end(g), Some(b)), "C03.set-paren.slot-holds-position");
+    kani::assert(g == 0 || (opt_eq(m.get_paren_start(0), Some(0)) && opt_eq(m.get_paren_end(0), Some(len))), "C03.set-paren.other-slots-untouched");
+    let t = m.get_paren(g);
+    kani::assert(matches!(t, Some(x) if x.len() == b - a), "C03.get-paren.returns-the-span");
+    kani::assert(m.get_paren(g + 1).is_none(), "C03.get-paren.group-beyond-count-is-absent");
+    kani::assert(m.get_paren_start(g + 1).is_none() || g + 1 < 3, "C03.get-paren-start.unset-slot-is-none");
+    std::mem::forget(m);
+    std::mem::forget(p);
+}
+
+//@ harness: c_set_paren_g3
+//@ props: C03 C05
+//@ tier: quick
+//@ cost: 60
+//@ bound: CaptureState::set_paren_start / set_paren_end for group 3 (the first slot beyond the three a fresh matcher allocates), every span a<=b<=len of every input <= 2 chars: no index error, slot holds the span, group 0 untouched, get_paren reads it back, group 4 absent
+//@ encodes: CaptureState::set_paren_start CaptureState::set_paren_end ReMatcher::get_paren ReMatcher::get_paren_start ReMatcher::get_paren_end
+std_stubs! { #[kani::unwind(8)] pub(crate) fn c_set_paren_g3() { c_set_paren(3) } }
+
+//@ harness: c_set_paren_g12
+//@ props: C03 C05
+//@ tier: quick
+//@ cost: 60
+//@ bound: the same for group 12 (more than 9 groups; the arrays double three times)
+//@ encodes: CaptureState::set_paren_start CaptureState::set_paren_end ReMatcher::get_paren
+std_stubs! { #[kani::unwind(16)] pub(crate) fn c_set_paren_g12() { c_set_paren(12) } }
+
+//@ harness: c_capture_two_activations
+//@ props: C19 C03
+//@ tier: quick
+//@ cost: 150
+//@ bound: two activations of one Capture(1, Atom[c]) at positions p1 < p2 of every input <= 3 chars (as happens when a group sits in a repeat and the engine backtracks into the earlier activation): whenever an activation's iterator yields, group 1's span AND both back-reference slots describe THAT activation (start = its own position, end = the yield)
+//@ encodes: Capture::matches_iter CaptureGroupIterator::next ReMatcher::set_start_backref ReMatcher::set_end_backref
+std_stubs! {
+    #[kani::unwind(6)]
+    pub(crate) fn c_capture_two_activations() {
+        let c: char = kani::any();
+        let cap = Capture::new(1, Operation::from(Atom::new(vec![c])));
+        let mut p = bare(Operation::from(Nothing), flags(""));
+        p.max_parens = Some(2);
+        p.optimization_flags = OPT_HASBACKREFS;
+        let mut m = ReMatcher::new(&p, "");
+        let (v, len) = sym_input::<3>();
+        m.search = v;
+        {
+            let st = m.verif_state();
+            let mut st = st.borrow_mut();
+            st.start_backref = vec![None, None];
+            st.end_backref = vec![None, None];
+        }
+        let p1: usize = kani::any();
+        let p2: usize = kani::any();
+        kani::assume(p1 < p2 && p2 <= len);
+        kani::cover!(m.search[p1] == c && p2 < len && m.search[p2] == c, "both activations can match");
+        kani::cover!(m.search[p1] == c && !(p2 < len && m.search[p2] == c), "only the earlier activation matches");
+        let mut it1 = cap.matches_iter(&m, p1);
+        let mut it2 = cap.matches_iter(&m, p2);
+        let y2 = it2.next();
+        let y1 = it1.next();
+        if let Some(e1) = y1 {
+            kani::assert(e1 == p1 + 1, "C19.capture.yield");
+            kani::assert(opt_eq(m.get_paren_start(1), Some(p1)) && opt_eq(m.get_paren_end(1), Some(e1)), "C03.capture.span-describes-the-yielding-activation");
+            kani::assert(opt_eq(m.start_backref(1), Some(p1)) && opt_eq(m.end_backref(1), Some(e1)), "C19.capture.backref-describes-the-yielding-activation");
+        }
+        kani::assert(y1.is_some() == (m.search[p1] == c), "C03.capture.child-result-passed-through");
+        kani::assert(y2.is_some() == (p2 < len && m.search[p2] == c), "C03.capture.child-result-passed-through-2");
+        std::mem::forget(it1);
+        std::mem::forget(it2);
+        std::mem::forget(cap);
+        std::mem::forget(m);
+        std::mem::forget(p);
+    }
+}
